@@ -19,6 +19,8 @@ import (
 	"strings"
 	"testing"
 	"time"
+
+	nethtml "golang.org/x/net/html"
 )
 
 func c17SameOrigin(loc string) bool {
@@ -34,6 +36,38 @@ func c17SameOrigin(loc string) bool {
 		}
 	}
 	return true
+}
+
+// c17HiddenDestination returns the value of the login_destination_input field as an HTML5 parser reads it.
+func c17HiddenDestination(page string) (string, bool) {
+	doc, err := nethtml.Parse(strings.NewReader(page))
+	if err != nil {
+		return "", false
+	}
+	var val string
+	found := false
+	var walk func(n *nethtml.Node)
+	walk = func(n *nethtml.Node) {
+		if n.Type == nethtml.ElementNode && n.Data == "input" {
+			id, v := "", ""
+			for _, a := range n.Attr {
+				switch strings.ToLower(a.Key) {
+				case "id":
+					id = a.Val
+				case "value":
+					v = a.Val
+				}
+			}
+			if id == "login_destination_input" && !found {
+				val, found = v, true
+			}
+		}
+		for c := n.FirstChild; c != nil; c = c.NextSibling {
+			walk(c)
+		}
+	}
+	walk(doc)
+	return val, found
 }
 
 func c17Family(d string) string {
@@ -63,7 +97,8 @@ func c17Destinations(rng interface{ Intn(int) int }, n int) []string {
 		"/.evil.com", "/./evil.com", "/..//evil.com", "/a/..//evil.com", "/.//evil.com", "//", "///evil.com", "////evil.com", "/\\\\evil.com", "/ /evil.com",
 		"／／evil.com", "/／evil.com", "/ /evil.com", "/profile/\r\nSet-Cookie: x=y", "/profile/\nLocation: https://evil.com",
 		"/" + strings.Repeat("a", 6000), " //evil.com", "\t//evil.com", "/\\\t/evil.com", "/?//evil.com", "/#//evil.com", "/;//evil.com",
-		"/\x7f/evil.com", "/\x1f/evil.com", "/\\evil.com/profile/", "/\\\\/evil.com", "/\t", "/\\", "/\\.evil.com"}
+		"/\x7f/evil.com", "/\x1f/evil.com", "/\\evil.com/profile/", "/\\\\/evil.com", "/\t", "/\\", "/\\.evil.com",
+		"/%2Fevil.com/", "/%5Cevil.com/x", "/%2f%2fevil.com", "/%09/evil.com/", "/%0a/evil.com", "/%2F%5Cevil.com"}
 	heads := []string{"/", "//", "/\\", "\\", "/\t", "/\n", "/\r", "/ ", "", "/%2f", "/%5c", "/.", "/..", "/a/..", "/\t/", "/\\/", "/\x00", "https://", "http:", "/./", "/;", "/?"}
 	mids := []string{"evil.com", "/evil.com", "\\evil.com", "\tevil.com", "@evil.com", "profile/", ".evil.com", "/\\evil.com", "//evil.com", "x"}
 	tails := []string{"", "/", "/profile/", "?x=1", "#f", "\t", "\r\n", "%0d%0a", "/..", "\\"}
@@ -132,7 +167,7 @@ func cookieVal(cs []*http.Cookie, name string) string {
 }
 
 func TestVerifC17(t *testing.T) {
-	rep := newVerifReport("C17", "destination grammar (slashes, backslashes, tab/CR/LF/NUL, encodings, schemes, user-info, dot segments, unicode slashes, very long) in form and query placement through every handler that redirects to the supplied destination (password login, TOTP, VIP OTP, Okta OTP, bootstrap OTP, OAuth2 begin->callback) on a real TLS server; every 3xx Location must be a same-origin path per the statement and fall back to /profile/ for ill-shaped destinations; class = (flow, destination family, placement, verdict)")
+	rep := newVerifReport("C17", "destination grammar (slashes, backslashes, tab/CR/LF/NUL, encodings, schemes, user-info, dot segments, unicode slashes, very long) in form and query placement through every handler that redirects to the supplied destination (password login, TOTP, VIP OTP, Okta OTP, bootstrap OTP, OAuth2 begin->callback) on a real TLS server, plus the destination field of the second-factor page that the browser-side scripts navigate to; every 3xx Location (and that field) must be a same-origin path per the statement and fall back to /profile/ for ill-shaped destinations; class = (flow, destination family, placement, verdict)")
 	defer rep.Finish()
 	rng := verifRand("c17")
 	vip := newVerifFakeVIP()
@@ -309,7 +344,69 @@ func TestVerifC17(t *testing.T) {
 			continue
 		}
 		judge("oauth2", d, placement, c2, h2)
+		// the same browser starts the federated login a second time (double submit, second tab): it already carries the
+		// setup cookie of a harmless first attempt; the destination of the second attempt is the hostile one
+		_, _, cks0, err := send(method, "/auth/oauth2/login", nil, "/profile/", placement, nil)
+		if err != nil {
+			continue
+		}
+		first := cookieVal(cks0, "oauth2_redir")
+		code3, hdr3, cks3, err := send(method, "/auth/oauth2/login", nil, d, placement, map[string]string{"oauth2_redir": first})
+		if err != nil || code3 != 302 {
+			rep.Count("oauth2_begin_failed", 1)
+			continue
+		}
+		redir3 := cookieVal(cks3, "oauth2_redir")
+		if redir3 == "" {
+			redir3 = first // the server kept the pending request of the first attempt
+		}
+		st3 := ""
+		if lu3, _ := url.Parse(hdr3.Get("Location")); lu3 != nil {
+			st3 = lu3.Query().Get("state")
+		}
+		c4, h4, _, _, err := cl.do("GET", "/auth/oauth2/callback?state="+url.QueryEscape(st3)+"&code="+idp.NewCode(fmt.Sprintf("fedr%d", i)), nil, map[string]string{"oauth2_redir": redir3}, html)
+		if err != nil {
+			rep.Count("transport_errors", 1)
+			continue
+		}
+		judge("oauth2-repeated-begin", d, placement, c4, h4)
 	}
+	// ---- (g) pages that carry the destination to the browser-side scripts: when the web UI needs a second factor the
+	// login answers with the second-factor page, whose hidden field login_destination_input is where the U2F / push
+	// scripts send the browser after success (window.location.href).  The value, as an HTML parser hands it to the
+	// script, is judged by the same rule as a Location header.
+	env.SetAllowedWebUI([]string{"U2F"})
+	nPage := 120
+	if verifThorough() {
+		nPage = len(dests)
+	}
+	for i := 0; i < nPage && i < len(dests); i++ {
+		d := dests[i]
+		placement := []string{"form", "query"}[i%2]
+		u := fmt.Sprintf("u%d", i%50)
+		code, _, _, body, err := func() (int, http.Header, []*http.Cookie, string, error) {
+			f := url.Values{"username": {u}, "password": {"pw-" + u}}
+			p := "/api/v0/login"
+			if placement == "query" {
+				p += "?login_destination=" + url.QueryEscape(d)
+			} else {
+				f.Set("login_destination", d)
+			}
+			return cl.do("POST", p, f, nil, html)
+		}()
+		if err != nil || code != 200 {
+			rep.Count("page_flow_no_page", 1)
+			continue
+		}
+		val, found := c17HiddenDestination(body)
+		if !found {
+			rep.Count("page_flow_no_field", 1)
+			continue
+		}
+		rep.Count("destination_fields_read", 1)
+		judge("2fa-page-destination-field", d, placement, 302, http.Header{"Location": {val}})
+	}
+	env.SetAllowedWebUI([]string{"password"})
 	// ---- (d) Okta OTP (separate deployment: Okta is the password backend)
 	okta := newVerifFakeOkta()
 	verifNet.Handle("verifco.okta.com", okta)
@@ -343,7 +440,8 @@ func TestVerifC17(t *testing.T) {
 		}
 		judge("okta-otp", d, "form", code, hdr)
 	}
-	for _, f := range []string{"password", "totp", "vip-otp", "bootstrap-otp", "oauth2", "okta-otp"} {
+	rep.Floor("destination_fields_read", 60)
+	for _, f := range []string{"password", "totp", "vip-otp", "bootstrap-otp", "oauth2", "oauth2-repeated-begin", "okta-otp"} {
 		rep.Floor("redirects_"+f, 40)
 	}
 	rep.Extra["destinations"] = len(dests)
